@@ -180,11 +180,9 @@ class Gen:
             n = dims[0] + abs(off)
             if n * n > 2 * MAXCELLS:
                 return self.root(dims, active, style)
-            # diag_vector's stride is offset_[0]+offset_[1]: over a 1x1 block of a view with cancelling strides that
-            # is ZERO, and the `index != max_index` loops of assign_inactive_scalar_/push_gradient_indices/
-            # push_lhs_range then run zero times (residual of the F-02/F-05/F-06 fix, reported separately): take a
-            # plain root for the 1x1 case
-            src = self.array([n, n], active, depth - 1 if n > 1 else 0, style, False)
+            # (over a 1x1 block of a view with cancelling strides diag_vector has stride ZERO: kept in, it found the
+            # zero-iteration loops repaired in a27a596)
+            src = self.array([n, n], active, depth - 1, style, False)
             return self.derive(src, "vdiag %%(h)d %%(src)d %d" % off, dims, "diag")
         src = self.array(dims, active, depth - 1, style, False)
         return self.derive(src, ("vsoft" if k == "soft" else "vlink") + " %(h)d %(src)d", dims, "soft_link" if k == "soft" else "link")
